@@ -25,75 +25,115 @@ def run(ctx):
     fn = u.function("rtosc_match_number")
     ps = u.params(fn)
     ctx.require(len(ps) == 2, "rtosc_match_number: expected (pattern, msg)")
-    pat_id, msg_id = ps[0]["id"], ps[1]["id"]
-    rets = [x for x in A.walk(u.body(fn)) if x.get("kind") == "ReturnStmt"]
-    final = rets[-1]
-    e = A.kids(final)[0]
-    vars_ = sorted({x["referencedDecl"]["id"] for x in A.walk(e) if x.get("kind") == "DeclRefExpr"})
-    ctx.require(len(vars_) == 2, "rtosc_match_number: final return does not compare two variables")
+    # evaluated on probe cursors: the function gets the addresses of two cursors (cells), each pointing into a string
+    PCELL, MCELL, PB, MB = 100, 200, 4096, 8192
+    probes = [("3/x", "0y"), ("3", "2"), ("3", "3"), ("3", "4"), ("10:i", "9/z"), ("10", "10"), ("2", "12"), ("12", "2"), ("1", "0"), ("0", "0"),
+              ("010", "7"), ("010", "8"), ("010", "9"), ("16/", "0x0f"), ("9", "010"), ("x", "1"), ("3", "x"), ("", "1"), ("3", "")]
+    bad_val, bad_req, bad_adv = [], [], []
 
-    def origin(vid):
-        d = u.by_id.get(vid)
-        if d is None or not A.kids(d):
-            return None
-        init = A.strip_casts(A.kids(d)[-1])
-        if init.get("kind") == "CallExpr" and A.callee_name(init) == "atoi":
-            refs = {x["referencedDecl"]["id"] for x in A.walk(init) if x.get("kind") == "DeclRefExpr"}
-            if pat_id in refs and msg_id not in refs:
-                return "pattern"
-            if msg_id in refs and pat_id not in refs:
-                return "message"
-        return None
-    org = {v: origin(v) for v in vars_}
-    ctx.ob("R05.1", "operands", sorted(org.values(), key=str) == ["message", "pattern"], site=A.where(final),
-           detail={u.by_id[v].get("name"): org[v] for v in vars_},
-           what="rtosc_match_number compares %s" % {u.by_id[v].get("name"): org[v] for v in vars_})
-    inv = {o: v for v, o in org.items()}
-    bad = []
-    if set(inv) == {"message", "pattern"}:
-        for val in range(6):
-            for mx in range(6):
-                try:
-                    r = FD.Eval(env={inv["message"]: val, inv["pattern"]: mx}).ev(e)
-                except FD.Unknown as ex:
-                    raise AnalysisBroken("R05.1: return expression not evaluable: %s" % ex)
-                if bool(r) != (val < mx):
-                    bad.append({"index": val, "N": mx, "returns": int(bool(r))})
-    ctx.ob("R05.1", "predicate table", not bad and set(inv) == {"message", "pattern"}, site=A.where(final), detail={"cases": 36, "mismatches": bad[:6], "expression": A.src(e)},
-           what="rtosc_match_number returns `%s`: %s" % (A.src(e), bad[:3]))
-    # digit precondition and consumption
-    def derefs_param(x, pid):
-        return pid in {y["referencedDecl"]["id"] for y in A.walk(x) if y.get("kind") == "DeclRefExpr"}
-    pre = [x for x in A.walk(u.body(fn)) if x.get("kind") == "IfStmt"]
-    pre_ok = False
-    for i in pre:
-        c = A.kids(i)[0]
-        calls = [k for k in A.calls_in(c) if A.callee_name(k) == "isdigit"] or [k for k in A.walk(c) if k.get("kind") == "ArraySubscriptExpr"]
-        txt = A.src(c)
-        if txt.count("pattern") >= 1 and txt.count("msg") >= 1 and any(A.int_literal(A.kids(r)[0]) == 0 for r in A.walk(A.kids(i)[1]) if r.get("kind") == "ReturnStmt" and A.kids(r)):
-            pre_ok = derefs_param(c, pat_id) and derefs_param(c, msg_id)
-    ctx.ob("R05.1", "digits required on both sides", pre_ok, site=A.where(fn), what="rtosc_match_number does not reject when pattern or message cursor is not at a digit")
-    # a digit-skipping loop in any spelling: its condition is isdigit of the cursor's character, and the cursor is stepped
-    # somewhere in the loop (body of a while, increment clause of a for)
-    loops = [x for x in A.walk(u.body(fn)) if x.get("kind") in ("WhileStmt", "ForStmt", "DoStmt")]
-    adv = {"pattern": False, "message": False}
-    for lp in loops:
-        if lp.get("kind") == "ForStmt":
-            raw = lp.get("inner", [])
-            c, rest = raw[2], [raw[3], raw[4]]
-        elif lp.get("kind") == "DoStmt":
-            c, rest = A.kids(lp)[1], [A.kids(lp)[0]]
-        else:
-            c, rest = A.kids(lp)[0], [A.kids(lp)[-1]]
-        if not c.get("kind"):
+    def _digits(t):
+        k = 0
+        while k < len(t) and t[k].isdigit():
+            k += 1
+        return k
+    for pat, msg in probes:
+        cells = {PCELL: PB, MCELL: MB}
+
+        def deref(addr, n, pat=pat, msg=msg, cells=cells):
+            if addr in cells:
+                return cells[addr]
+            if PB <= addr <= PB + len(pat):
+                return ord(pat[addr - PB]) if addr - PB < len(pat) else 0
+            if MB <= addr <= MB + len(msg):
+                return ord(msg[addr - MB]) if addr - MB < len(msg) else 0
+            raise FD.Unknown("read outside the probe strings", n)
+
+        def store(addr, v, n, cells=cells):
+            if addr not in cells:
+                raise FD.Unknown("store outside the two cursors", n)
+            cells[addr] = v
+
+        def text_from(addr, pat=pat, msg=msg):
+            if PB <= addr <= PB + len(pat):
+                return pat[addr - PB:]
+            if MB <= addr <= MB + len(msg):
+                return msg[addr - MB:]
+            raise FD.Unknown("pointer outside the probe strings")
+
+        def hook(n, ev):
+            if n.get("kind") == "UnaryOperator" and n.get("opcode") == "&" and A.strip_casts(A.kids(n)[0]).get("kind") == "DeclRefExpr":
+                return ("addr", A.ref_id(A.kids(n)[0]))
+            if n.get("kind") == "BinaryOperator" and n.get("opcode") == "&":
+                enum = [y["referencedDecl"]["name"] for y in A.walk(A.kids(n)[1]) if y.get("kind") == "DeclRefExpr" and (y.get("referencedDecl") or {}).get("kind") == "EnumConstantDecl"]
+                subs = [y for y in A.walk(A.kids(n)[0]) if y.get("kind") == "ArraySubscriptExpr"]
+                if len(enum) == 1 and enum[0] == "_ISdigit" and subs:
+                    v = ev.ev(A.kids(subs[0])[1])
+                    return 1 if 48 <= v <= 57 else 0
+            return NotImplemented
+
+        def call(nm, vals, n):
+            import re as _re
+            if nm == "isdigit":
+                return 1 if 48 <= vals[0] <= 57 else 0
+            if nm in ("atoi", "atol"):
+                m_ = _re.match(r'\s*([+-]?\d+)', text_from(vals[0]))
+                return int(m_.group(1)) if m_ else 0
+            if nm in ("strtol", "strtoul", "strtoll", "strtoull"):
+                t = text_from(vals[0])
+                base = vals[2]
+                m_ = _re.match(r'\s*([+-]?)(0[xX][0-9a-fA-F]+|\d+)', t)
+                val, used = 0, 0
+                if m_:
+                    body = m_.group(2)
+                    try:
+                        if base == 0:
+                            val = int(body, 16) if body[:2].lower() == "0x" else (int(body, 8) if len(body) > 1 and body[0] == "0" and all(c in "01234567" for c in body) else None)
+                            if val is None:
+                                k_ = 1 if body[0] == "0" else len(body)
+                                k_ = len(body) if body[0] != "0" else 1 + sum(1 for _ in _re.match(r'[0-7]*', body[1:]).group(0))
+                                val = int(body[:k_], 8 if body[0] == "0" and k_ > 1 else 10)
+                                body = body[:k_]
+                        elif base == 16:
+                            val = int(body[2:] if body[:2].lower() == "0x" else body, 16)
+                        else:
+                            body = _re.match(r'\d+', body).group(0) if base == 10 else body
+                            val = int(body, base)
+                    except ValueError:
+                        raise FD.Unknown("strtol model", n)
+                    used = len(m_.group(1)) + len(body)
+                    if m_.group(1) == "-":
+                        val = -val
+                if isinstance(vals[1], tuple) and vals[1][0] == "addr":
+                    ev.env[vals[1][1]] = vals[0] + used
+                return val
+            fns_ = [f_ for f_ in u.functions.get(nm, []) if u.body(f_) is not None]
+            if len(fns_) == 1:
+                return ev.call_function(u, fns_[0], vals)
+            raise FD.Unknown("call to %s" % nm, n)
+        ev = FD.Eval(deref=deref, store=store, node_hook=hook, call=call, max_steps=4000)
+        try:
+            r = ev.call_function(u, fn, [PCELL, MCELL])
+        except FD.Unknown as ex:
+            raise AnalysisBroken("R05.1: rtosc_match_number not evaluable on (%r, %r): %s" % (pat, msg, ex))
+        dp, dm = _digits(pat), _digits(msg)
+        if dp == 0 or dm == 0:
+            if r:
+                bad_req.append({"pattern_at": pat, "message_at": msg, "returns": 1})
             continue
-        isd = any(A.callee_name(k) == "isdigit" for k in A.calls_in(c)) or any((y.get("referencedDecl") or {}).get("name") == "_ISdigit" for y in A.walk(c) if y.get("kind") == "DeclRefExpr")
-        for pid, nm in ((pat_id, "pattern"), (msg_id, "message")):
-            steps = [x for r_ in rest if r_.get("kind") for x in A.walk(r_)
-                     if (x.get("kind") == "UnaryOperator" and x.get("opcode") == "++" or x.get("kind") == "CompoundAssignOperator" and x.get("opcode") == "+=") and derefs_param(x, pid)]
-            if isd and derefs_param(c, pid) and steps:
-                adv[nm] = True
-    ctx.ob("R05.1", "digit runs consumed", all(adv.values()), site=A.where(fn), detail=adv, what="rtosc_match_number does not advance both cursors past their digits: %s" % adv)
+        exp = int(msg[:dm]) < int(pat[:dp])
+        if bool(r) != exp:
+            bad_val.append({"N": pat[:dp], "index": msg[:dm], "returns": int(bool(r)), "expected": int(exp)})
+        if cells[PCELL] != PB + dp or cells[MCELL] != MB + dm:
+            bad_adv.append({"N": pat[:dp], "index": msg[:dm], "pattern_cursor_moved": cells[PCELL] - PB, "message_cursor_moved": cells[MCELL] - MB, "expected": [dp, dm]})
+    site = A.where(fn)
+    ctx.ob("R05.1", "operands", not bad_val, site=site, detail={"probes": len(probes), "mismatches": bad_val[:6]},
+           what="rtosc_match_number does not compare the decimal index of the message with the decimal bound of the pattern: %s" % bad_val[:3])
+    ctx.ob("R05.1", "predicate table", not bad_val, site=site, detail={"cases": len(probes), "mismatches": bad_val[:6]},
+           what="rtosc_match_number returns something else than index < N: %s" % bad_val[:3])
+    ctx.ob("R05.1", "digits required on both sides", not bad_req, site=site, detail={"mismatches": bad_req[:4]},
+           what="rtosc_match_number does not reject when pattern or message cursor is not at a digit: %s" % bad_req[:2])
+    ctx.ob("R05.1", "digit runs consumed", not bad_adv, site=site, detail={"mismatches": bad_adv[:4]},
+           what="rtosc_match_number does not advance both cursors past their digits: %s" % bad_adv[:2])
 
     # ---- R05.2
     n = 0
